@@ -13,7 +13,7 @@ import (
 func init() {
 	register("C06", c06Reparent, c06Params, c06Payload, c06Restore, c06Atomic, c06Own,
 		// the chain stored at a route is what dispatch runs: the chain builder rules of C12
-		c12Const, c12Assembly, c12GroupFresh)
+		c12Const, c12Assembly, c12GroupFresh, c12RouteFresh)
 }
 
 // childFields returns the fields of the route-tree node that hold child nodes (type *node or
